@@ -19,6 +19,8 @@ def main():
     a = ap.parse_args()
     pid = a.pid.upper()
     seed = int(os.environ.get("VERIF_SEED", "0") or 0)
+    # must happen before numba is imported (it reads NUMBA_CACHE_DIR at import time)
+    os.environ["NUMBA_CACHE_DIR"] = common.numba_cache_dir("main")
     try:
         mod = importlib.import_module("harness.%s" % pid.lower())
     except ModuleNotFoundError as e:
